@@ -1,6 +1,7 @@
 import Driver.FsmDriver
 import Driver.SszDriver
 import Driver.BoardDriver
+import Driver.BoardLinesDriver
 import Driver.AlgDriver
 import Driver.NodeDriver
 import Driver.AirDriver
@@ -39,6 +40,14 @@ partial def loopBoard (h : IO.FS.Stream) (out : IO.FS.Stream) (f : List Dc4bcVer
   let (f', o) := boardStep f toks
   out.putStrLn o
   loopBoard h out f'
+
+partial def loopBoardLines (h : IO.FS.Stream) (out : IO.FS.Stream) (f : Dc4bcVerif.Model.BoardLines.File) : IO Unit := do
+  let line ← h.getLine
+  if line.isEmpty then return ()
+  let toks := (line.trimAscii.toString.splitOn " ").filter (· != "")
+  let (f', o) := boardLinesStep f toks
+  out.putStrLn o
+  loopBoardLines h out f'
 
 partial def loopAlg (h : IO.FS.Stream) (out : IO.FS.Stream) (st : AlgSt) : IO Unit := do
   let line ← h.getLine
@@ -91,5 +100,6 @@ def main (args : List String) : IO UInt32 := do
   | ["alg"] => loopAlg stdin stdout {}; pure 0
   | ["airdkg"] => loopAirDkg stdin stdout {}; pure 0
   | ["board"] => loopBoard stdin stdout []; pure 0
+  | ["boardlines"] => loopBoardLines stdin stdout {}; pure 0
   | ["ssz"] => loopSsz stdin stdout ⟨Dc4bcVerif.Model.Tasks.bakedIndices.toArray⟩; pure 0
   | _ => IO.eprintln "usage: driver fsm|…"; pure 2
